@@ -37,16 +37,26 @@ CONFIG = dict(
                    'the sparse entries of samples <= s and band b, for every sparse history and sampling <, =, > granularity; the pre-fix row '
                    'allocation is refuted); the ground-truth oracle has no negative cell, every row sums to the lines alive at the sample and '
                    'the last row to the lines at HEAD; C01_linear (arbitrary edit scripts on a linear history: no negative cell, row sums = '
-                   'tracked lines at the sample); C01_global_sparse and C01_matrix for conflict-free histories executed along any validated '
-                   'plan (linear, forks, diamonds, criss-cross, octopus): the dense project matrix equals the ground-truth matrix; '
-                   'per-file / per-developer / ownership clauses: checked by the oracle on every case, not proved.',
+                   'tracked lines at the sample); for conflict-free histories executed along any validated plan (linear, forks, diamonds, '
+                   'criss-cross, octopus): C01_global_sparse and C01_matrix (the dense project matrix equals the ground-truth matrix), '
+                   'C01_files (the dense matrix of every file history, rows up to the project\'s last tick, equals the ground truth of the '
+                   'lines of that path), C01_people (the same per developer: births of the commits he authored, deaths booked against the '
+                   'line\'s author), C01_ownership (per developer the lines of the file alive at HEAD, single head), C01_finalize (all of it '
+                   'for what Finalize returns; Finalize succeeds on the domain and returns exactly one per-file matrix / ownership table per '
+                   'path with a line and one matrix per developer), and the corollaries (no negative cell, last row = lines at HEAD) for the '
+                   'project, every file and every developer.',
         level_note='Closed (no axioms): C01_dense (+ refutation of the pre-fix row allocation); oracle facts; C01_linear; C01_global_sparse '
                    '(conflict-free history + any plan accepted by plan_okb, merges included: the sparse global history is births minus deaths '
                    'at the right (tick, birth tick), merge commits counted once); C01_matrix (the dense project matrix equals the ground-truth '
-                   'matrix: rows, bands and every cell), C01_no_negative_cell, C01_last_row_is_head. NOT PROVED: the per-file, per-developer '
-                   'and ownership equalities (C01_files / C01_people / C01_ownership of DESIGN.md) - they are judged by the extracted oracle '
-                   'on every replayed case, the model carries those histories and is compared with the implementation, but the proved '
-                   'invariant covers the global history only. The theorems are about the abstract analysis over arrays: the tracker, '
+                   'matrix: rows, bands and every cell), C01_no_negative_cell, C01_last_row_is_head; C01_files_sparse / C01_people_sparse and '
+                   'C01_files / C01_people (every per-file and per-developer matrix that Finalize produces equals truth_file / truth_dev: rows '
+                   'to the project\'s last tick, bands, every cell; an empty developer history = zero ground truth), C01_ownership, '
+                   'C01_master_holds_all, C01_finalize, C01_files/people_no_negative_cell, C01_files/people_last_row_is_head. '
+                   'C01_files_cover / C01_finalize_cover / C01_finalize_succeeds (a path has a file matrix iff it has a line; Finalize '
+                   'succeeds whenever the history has a line, i.e. outside F11). '
+                   'NOT PROVED, evaluated per case: that the validated plan leaves every commit on the master branch of a single-head '
+                   'history (master_all; the ownership clause and C01_finalize start from a branch that holds every commit). '
+                   'The theorems are about the abstract analysis over arrays: the tracker, '
                    'File.Merge, the planner, tree/file diffs, hibernation, ticks and identities enter as the hypotheses listed under '
                    'assumptions (C03, C07, C02, C11/C20, C09, C19/C16); the model is tied to burndown.go by replay, not by proof. '
                    'conflict_free contains two redundant executable conjuncts (ticks monotone along ancestry, killer tick >= birth tick) '
